@@ -123,7 +123,7 @@ where
         }
 
         let payload_offset = FlexVec::<T, L>::OFFSET_SIZE;
-        if payload_offset > next_offset {
+        if payload_offset > next_offset || payload_offset > data.bytes().len() || (!last && next_offset > data.bytes().len()) {
             return Some(Err(Error {
                 kind: ErrorKind::InsufficientSize,
                 pos: self.pos + payload_offset,
